@@ -29,7 +29,9 @@ The module also holds the functions both property modules (C16, C17) and the cro
 `templates(cfg)`, `norm(descriptor)`, `complementary(a, b)`, `run(cfg)`, and `python -m gen.g4_sampler`
 (reads a JSON list of configurations on stdin, prints the sha1 of the canonical dump of each sample).
 """
+import contextlib
 import hashlib
+import io
 import itertools
 import json
 import random
@@ -139,6 +141,24 @@ def templates(cfg):
     return out
 
 
+def aromatic_atoms(key):
+    _, elems, bonds = LIB_AA[key]
+    return sorted({x for i, j, o in bonds if o == 1.5 for x in (i, j)})
+
+
+def has_aromatic_descriptor(cfg):
+    """Syntactic class: some bonding descriptor sits on an aromatic atom."""
+    if not cfg['all_atom']:
+        return False
+    return any(d[0] in aromatic_atoms(fr['lib']) for fr in cfg['frags'] for d in fr['desc'])
+
+
+def closed(cfg):
+    """Every '>' / '<' descriptor has its complement somewhere in the configuration."""
+    ds = all_descriptors(cfg)
+    return all(any(complementary(d, e) for e in ds) for d in ds)
+
+
 def all_descriptors(cfg):
     seen = []
     for fr in cfg['frags']:
@@ -203,10 +223,11 @@ def construct(cfg):
 def run(cfg, precondition=None):
     """Construct a fresh sampler with the configuration's seed and sample once. Returns (sampler, molecule);
     (sampler, None) when `precondition(sampler)` is given and false (nothing is sampled then)."""
-    sampler = construct(cfg)
-    if precondition is not None and not precondition(sampler):
-        return sampler, None
-    mol = sampler.sample(cfg['target'], start_fragment=cfg['start'])
+    with contextlib.redirect_stdout(io.StringIO()):      # rebuild_h_atoms print()s pysmiles' complaint before raising
+        sampler = construct(cfg)
+        if precondition is not None and not precondition(sampler):
+            return sampler, None
+        mol = sampler.sample(cfg['target'], start_fragment=cfg['start'])
     return sampler, mol
 
 
@@ -296,6 +317,10 @@ def scenarios():
     S.append(('peo-oh', _cfg([peo, oh2], True), [100, 300]))
     cg = _f('A', 'XY', (0, '$', 1, True), (1, '$', 1, False))
     S.append(('coarse-homopolymer', _cfg([cg], False, masses={'A': 10}), [10, 30, 35]))
+    # descriptors on aromatic atoms (ortho pair on a phenyl ring, both get consumed)
+    ar = _f('P', 'PS', (5, '>A', 1, False), (6, '$', 1, False))
+    arq = _f('Q', 'CP', (0, '$C', 1, True), (1, '<A', 1, False))
+    S.append(('aromatic-ortho', _cfg([ar, arq], True, masses={'P': 1, 'Q': 10}, start='P'), [12, 25]))
     # higher orders: double-bond linkers, labelled directed descriptors of order 2
     e1 = _f('E', 'CC', (0, '$A', 2, True), (1, '$B', 1, False), (1, '$', 2, False))
     e2 = _f('K', 'C', (0, '$', 2, False), (0, '$', 1, False), (0, '$C', 1, False))
@@ -342,7 +367,8 @@ def systematic(seeds, with_cap=True):
                              term=list(term), masses=dict(masses), start='M' if seed % 2 else None)
                     c['seed'] = seed
                     c['target'] = target
-                    yield finish(c)
+                    if closed(c):
+                        yield finish(c)
 
 
 # ----------------------------------------------------------------------------------------------------
@@ -387,13 +413,17 @@ def random_cfg(rng, max_seed, size='small'):
     all_atom = rng.random() < 0.5
     lib = LIB_AA if all_atom else LIB_CG
     nfr = rng.choice([1, 2, 2, 2, 3, 3, 4])
+    # descriptors on aromatic atoms only in a small share of the configurations (see C16: the sampler mishandles them)
+    arom_ok = rng.random() < 0.12
     frags, capl = [], []
     for i in range(nfr):
-        key = rng.choice(sorted(lib))
-        caps = free_valences(key) if all_atom else [4] * len(lib[key][1])
+        caps = []
         while sum(caps) == 0:
             key = rng.choice(sorted(lib))
             caps = free_valences(key) if all_atom else [4] * len(lib[key][1])
+            if all_atom and not arom_ok:
+                for a in aromatic_atoms(key):
+                    caps[a] = 0
         fr = {'name': NAMES[i], 'lib': key, 'desc': []}
         nd = rng.choice([1, 2, 2, 2, 3, 3, 4])
         for _ in range(nd):
